@@ -16,7 +16,7 @@ import (
 func c07Specs(tier string) []*h.SeqSpec {
 	f := StdFix()
 	const repo = "r"
-	arts := []string{"A1", "A2", "A4"}
+	arts := []string{"A1", "A2", "A3"} // A1 and A3 share an artifactType: a filtered list can span pages
 	depth := 5
 	if tier == "thorough" {
 		arts = []string{"A1", "A2", "A3", "A4", "A5", "AX2"}
